@@ -156,10 +156,10 @@ def fp_reset_line(T, p, regs):
     return 'FPRESET %s %d %d %s' % (T, p, len(regs), ' '.join('%d %s' % (len(r), ' '.join('%d %d' % (i, v) for i, v in r)) for r in regs))
 
 
-def random_fp_history(rng, T, p, R, D, length, kmax=50):
+def random_fp_history(rng, T, p, R, D, length, kmax=50, long_vectors=False):
     regs = []
     for _ in range(R):
-        idx = sorted(rng.sample(range(D), rng.randint(0, min(D, 4))))
+        idx = sorted(rng.sample(range(D), rng.choice([0, 1, 2, D // 2, D - 1, D]) if long_vectors else rng.randint(0, min(D, 4))))
         regs.append([(i, rng.randint(1, p - 1) if p > 1 else 1) for i in idx])
     lines = [fp_reset_line(T, p, regs)]
     ops = ['Unit', 'Copy', 'Assign', 'Plus', 'Plus', 'PlusAssign', 'PlusAssign', 'Scale', 'Scale', 'ScaleAssign', 'Dot', 'Dot', 'Clear']
@@ -236,6 +236,9 @@ def check_C18(res, tier, seed, replay):
             T = rng.choice(['int', 'long', 'cpp_int'])
             p = rng.choice([2, 3, 5, 7, 11, 13, 31, 97])
             hl += random_fp_history(rng, T, p, 3, rng.choice([3, 5, 12]), 30)
+        for k in range(nh // 3):       # long vectors against short ones (merge loops far from their ends, one operand exhausted early)
+            hl += random_fp_history(rng, rng.choice(['int', 'long', 'cpp_int']), rng.choice([2, 3, 7, 31, 97]), 3, rng.choice([24, 48, 80]), 20, long_vectors=True)
+        nh += nh // 3
         trace2, ev2, v2 = run_script(res, exe, wd, 'fp_hist', hl, 'Trace_FP', 'Trace_FP.cfg', '"op":"Reset"')
         res.add_validation(v2, nh)
         judge(res, v2, 'Trace_FP')
